@@ -36,6 +36,7 @@ type envTarEntry struct {
 	Body     string
 	Atime    int64 // access time recorded in the header (PAX/GNU), 0 = none
 	Size     int64 // output only: the size recorded in the entry's header
+	Pad      int64 // output only: zero bytes stored after Body (sparse files)
 }
 
 var envBaseLog int
@@ -61,6 +62,10 @@ func envMkdir(path string, perm uint32, mtime int64) {
 }
 func envWriteFile(path string, perm uint32, mtime int64, data string) {
 	envAdd(path, vNode{kind: vFile, perm: perm & 07777, mtime: mtime, data: data})
+}
+// envWriteSparse: a regular file holding data followed by pad zero bytes (a hole).
+func envWriteSparse(path string, perm uint32, mtime int64, data string, pad int64) {
+	envAdd(path, vNode{kind: vFile, perm: perm & 07777, mtime: mtime, data: data, pad: pad})
 }
 func envSymlink(path, target string, mtime int64) {
 	verif.Assume(target != "") // symlink(2) refuses an empty target
@@ -202,7 +207,7 @@ func envTarWrittenBy(i int) []envTarEntry {
 			continue
 		}
 		out = append(out, envTarEntry{Name: e.hdr.Name, Linkname: e.hdr.Linkname, Typeflag: e.hdr.Typeflag, Mode: e.hdr.Mode,
-			Mtime: e.hdr.ModTime.Unix(), Body: e.body, Size: e.hdr.Size})
+			Mtime: e.hdr.ModTime.Unix(), Body: e.body, Size: e.hdr.Size, Pad: e.pad})
 	}
 	return out
 }
